@@ -197,6 +197,8 @@ def gen_case(seed):
         'gpu_base': rnd.randint(0, 5),
         'exit'   : [rnd.choice([0, 0, 0, 1, 2, 3, 42, 127, 255]) for _ in range(3)],
         'ctrl'   : [rnd.randint(10000, 10100), rnd.randint(10000, 10100)],
+        # the Flux path: the exec script is run per rank by the Flux job shell (no launch script)
+        'flux'   : ranks >= 2 and rnd.random() < 0.35,
     }
     fail_where = rnd.choice(['', '', '', 'pre', 'post'])
     case['pre']  = g_prep(rnd, ranks, True,  fail_where == 'pre')
@@ -520,6 +522,9 @@ def _run(case, eng, cdir, res):
     post_fails = [any(c[0] == 'fail' for c, _ in post_plan[r]) for r in range(n_ranks)]
     # a rank that dies in pre_exec never signals: syncing on it cannot end
     sync = bool(case.get('sync')) and n_ranks > 1 and not any(pre_fails)
+    flux = bool(case.get('flux')) and n_ranks >= 2 and not case.get('before')
+    if flux:
+        sync = False
 
     td = {'executable'    : probe,
           'arguments'     : args,
@@ -585,7 +590,11 @@ def _run(case, eng, cdir, res):
                      repr(pobs['error']))
             return pobs
         res.label('earlier_task:%s' % kind)
-    obs = eng.run_task(td, slots, case.get('sandbox', 'default'))
+    if flux:
+        res.label('flux_job_shell')
+        obs = eng.run_task_flux(td, slots, case.get('sandbox', 'default'))
+    else:
+        obs = eng.run_task(td, slots, case.get('sandbox', 'default'))
     if obs['error'] is not None:
         res.fail(exc_sig('handle_task_raised', obs['error']), repr(obs['error']))
         return obs
@@ -596,7 +605,7 @@ def _run(case, eng, cdir, res):
     uid, sbox = obs['uid'], obs['sbox']
     res.label('launcher=%s' % obs['launcher'])
     expect_lm = 'FORK' if (n_ranks == 1 and not td.get('use_mpi')) else 'MPIRUN'
-    if obs['launcher'] != expect_lm:
+    if obs['launcher'] != expect_lm and not flux:
         res.fail('launcher_choice', 'got %s expected %s' % (obs['launcher'], expect_lm))
         return obs
 
